@@ -585,6 +585,24 @@ func CDXNode(r *rand.Rand, id string, ver int, k int, first bool) *sbom.Node {
 			}
 			n.ExternalReferences = append(n.ExternalReferences, er)
 		}
+		if r.Intn(4) == 0 {
+			// the same reference listed again with other hashes (one download URL, once per digest), or with only
+			// the comment changed: entries that agree in most of their fields are still distinct entries
+			src := n.ExternalReferences[r.Intn(len(n.ExternalReferences))]
+			dup := &sbom.ExternalReference{Type: src.Type, Url: src.Url, Comment: src.Comment}
+			if r.Intn(3) == 0 {
+				dup.Comment = txt()
+				for a, v := range src.Hashes {
+					if dup.Hashes == nil {
+						dup.Hashes = map[int32]string{}
+					}
+					dup.Hashes[a] = v
+				}
+			} else {
+				dup.Hashes = map[int32]string{int32(Pick(r, CDXHashAlgos)): hexish(r)}
+			}
+			n.ExternalReferences = append(n.ExternalReferences, dup)
+		}
 	}
 	return n
 }
